@@ -83,45 +83,113 @@ def r1(ctx):
 def r2(ctx):
     repo = ctx.repo
     f = repo.cls("config", "ArgumentParser").find_method("parse_args")
-    body = u(f.node)
-    src = {
-        "passes-from-builtin": "args.passes = set(args.passes)",
-        "passes-from-flags": "args.passes |= set(chain(*args._passes.values()))",
-        "default-pass": "args.passes |= {'default'}",
-        "modes-set": "args.modes = set(args.modes)",
-    }
-    for k, t in src.items():
-        ctx.soft(t in body, f"config:ArgumentParser.parse_args:{k}", f"expected `{t}`", f.loc())
-    loops = [n for n in walk_no_nested(f.node) if isinstance(n, ast.For) and u(n.iter) == "args.passes"]
-    ctx.require(len(loops) == 1, "parse_args: loop over args.passes not found")
-    lp = loops[0]
-    pn = u(lp.target)
-    t = u(lp)
-    checks = {
-        "default-pass-uses-selected-modes": f"if {pn} == 'default':\n    modes = args.modes",
-        "unknown-pass-reported": f"if {pn} not in self.compiler.passes:\n        log.error(",
-        "pass-contributes": f"config._update(self.compiler.passes[{pn}])",
-        "pass-modes": f"modes = self.compiler.passes[{pn}].modes",
-        "unknown-mode-reported": "if mode_name not in self.compiler.modes:\n        log.error(",
-        "mode-contributes": "config._update(self.compiler.modes[mode_name])",
-        "one-config-per-pass": "configurations.append(config)",
-    }
-    for k, pat in checks.items():
-        ctx.soft(_loose(pat) in _loose(t), f"config:ArgumentParser.parse_args:{k}", f"expected `{pat}` in the per-pass loop", f.loc(lp))
-    ml = [n for n in ast.walk(lp) if isinstance(n, ast.For) and u(n.iter) == "modes"]
-    ctx.soft(len(ml) == 1, "config:ArgumentParser.parse_args:modes-loop", "every mode of the pass must be applied", f.loc(lp))
+    # Contract of the per-pass part, stated over the decision table (A = the parsed namespace):
+    #   passes = A.passes  U  every list in A._passes  U  {default}
+    #   for each pass P:  C = PreprocessorConfiguration(copies of A.defines / A.include_paths / A.include_files, P)
+    #       P == default            -> modes = A.modes
+    #       P unknown               -> error, nothing appended
+    #       otherwise               -> C._update(passes[P]); modes = passes[P].modes
+    #       each mode m of modes:   unknown -> error ; else C._update(modes[m])
+    #       configurations.append(C)           (exactly once per known pass)
+    from ..decision import NOTHING, Evaluator, Hooks, Sym, vtext
+    from ..spec import appended, vt
+
+    class H(Hooks):
+        unroll = 1
+
+        def on_call(self, call, ftext, args, kwargs, st):
+            if ftext.endswith(".parse_known_args"):
+                st.effect("PARSED", *args)
+                return (Sym("A"), Sym("UNREC"))
+            if ftext.endswith(".parse_args") and not ftext.startswith("self."):
+                st.effect("PARSED", *args)
+                return Sym("A")
+            if ftext.split(".")[-1] == "PreprocessorConfiguration":
+                n = sum(1 for e in st.effects if e[0] == "NEW_CONFIG") + 1
+                st.effect("NEW_CONFIG", *args, *[(k, v) for k, v in kwargs.items()])
+                return Sym(f"CFG{n}")
+            if ftext.endswith(".add_argument"):
+                return None
+            if ftext.startswith("log."):
+                st.effect("LOG", ftext)
+                return None
+            return NOTHING
+
+    paths = Evaluator(H(), max_paths=4000).paths(f.node)
+    n_def = n_named = n_unknown = 0
+    for p in paths:
+        effs = p.effects
+        parsed = [e for e in effs if e[0] == "PARSED"]
+        if len(parsed) != 1:
+            raise AnalysisError(f"parse_args: the argparse call is not recognised ({len(parsed)} parse calls on a path)")
+        ok_argv = len(parsed[0]) >= 2 and vt(parsed[0][1]) in (f"({f.params[1]} Add self.compiler.options)", f"[*{f.params[1]}, *self.compiler.options]")
+        ctx.check(ok_argv, "config:ArgumentParser.parse_args:implicit-options-appended", f"the compiler's implicit options must be appended to the command line (argv + self.compiler.options): parses `{vt(parsed[0][1]) if len(parsed[0]) > 1 else ''}`", f.loc())
+        loops = [m.group(1) for k, v in p.atoms.items() for m in [re.match(r"more\((.+)#L\d+,0\)$", k)] if m and v and "A.passes" in k]
+        after = effs[effs.index(parsed[0]) + 1 :]
+        if not loops:
+            continue
+        PS = loops[0]
+        ok_set = all(x in PS for x in ("A.passes", "A._passes.values()", "'default'")) and "BitAnd" not in PS and " Sub " not in PS
+        ctx.check(ok_set, "config:ArgumentParser.parse_args:passes", f"the passes of a command are the built-in selection, every flag-selected list and the default pass, united: `{PS[:160]}`", f.loc())
+        P = f"{PS}[0]"
+        newc = [e for e in after if e[0] == "NEW_CONFIG"]
+        key = "config:ArgumentParser.parse_args:pass:"
+        if len(newc) != 1:
+            ctx.violation(key + "one-config", f"{len(newc)} configurations are created for one pass", f.loc())
+            continue
+        cargs = [vt(x) for x in newc[0][1:]]
+        ok = cargs == ["A.defines.copy()", "A.include_paths.copy()", "A.include_files.copy()", P] or cargs == ["list(A.defines)", "list(A.include_paths)", "list(A.include_files)", P]
+        ctx.check(ok, key + "starts-from-copies", f"every pass must start from its own copies of the extracted -D / -I / -include lists and carry its name: PreprocessorConfiguration({', '.join(c[:40] for c in cargs)})", f.loc())
+        at = {vt(k): v for k, v in p.atoms.items()}
+        is_def = next((v for k, v in at.items() if k in (f"'default' Eq {P}", f"{P} Eq 'default'")), None)
+        if is_def is None:
+            raise AnalysisError(f"parse_args: the default-pass test is not recognised: {p.describe()[:200]}")
+        ups = [vt(e[2]) for e in after if e[0] == "call" and e[1] == "CFG1._update"]
+        apps = [t for t in appended(p, "configurations")]
+        logs = [e for e in after if e[0] == "LOG" and e[1] == "log.error"]
+        if is_def:
+            n_def += 1
+            M = "A.modes"
+            expect_ups = []
+        else:
+            known = at.get(f"{P} In self.compiler.passes")
+            if known is None:
+                ctx.violation(key + "unknown-pass-reported", "a selected pass is used without checking that the compiler defines it", f.loc())
+                continue
+            if not known:
+                n_unknown += 1
+                ctx.check(len(logs) == 1 and not apps and not ups, key + "unknown-pass-reported", f"an unknown pass must be reported with an error and contribute nothing: {len(logs)} errors, appended {apps}", f.loc())
+                continue
+            n_named += 1
+            M = f"self.compiler.passes[{P}].modes"
+            expect_ups = [f"self.compiler.passes[{P}]"]
+        mloop = [k for k, v in p.atoms.items() if re.match(r"more\((set\()?" + re.escape(M) + r"\)?(@\d+)?#L\d+,0\)$", k)]
+        if not mloop:
+            ctx.violation(key + "modes-applied", f"the modes of the pass (`{M}`) are not iterated: {[k[:80] for k in p.atoms if k.startswith('more(')][-2:]}", f.loc())
+            continue
+        n_errors = 0
+        if p.atoms[mloop[0]]:
+            mm = re.match(r"more\((.+)#L\d+,0\)$", mloop[0]).group(1)
+            m0 = f"{vt(mm)}[0]"
+            mk = at.get(f"{m0} In self.compiler.modes")
+            if mk is None:
+                ctx.violation(key + "unknown-mode-reported", "a mode is applied without checking that the compiler defines it", f.loc())
+                continue
+            if mk:
+                expect_ups.append(f"self.compiler.modes[{m0}]")
+            else:
+                n_errors = 1
+        ok = ups == expect_ups and apps == ["CFG1"] and len(logs) == n_errors
+        ctx.check(ok, key + ("default" if is_def else "named") + f":modes={int(bool(p.atoms[mloop[0]]))},errors={n_errors}", f"a pass contributes exactly: its own definitions (named pass), then those of each of its modes (default pass: the modes selected on the command line), and yields one configuration; got updates {ups}, expected {expect_ups}; appended {apps}; errors logged {len(logs)}", f.loc())
+    if not (n_def and n_named and n_unknown):
+        raise AnalysisError(f"parse_args: per-pass idiom not recognised (default {n_def}, named {n_named}, unknown {n_unknown})")
     # _update extends all three lists from the pass/mode
     up = repo.cls("config", "PreprocessorConfiguration").find_method("_update")
     p = up.params[1]
     for fld in ("defines", "include_paths", "include_files"):
         ctx.soft(f"self.{fld}.extend({p}.{fld})" in u(up.node), f"config:PreprocessorConfiguration._update:{fld}", f"a pass/mode must contribute its {fld}", up.loc())
-    # load_database: one entry per configuration, appended
-    ld = repo.func("config", "load_database")
-    lps = [n for n in walk_no_nested(ld.node) if isinstance(n, ast.For) and u(n.iter) == "preprocessor_configs"]
-    ok = len(lps) == 1 and any(isinstance(s, ast.AugAssign) and u(s) == "configuration += [entry]" for s in lps[0].body)
-    ctx.soft(ok, "config:load_database:one-entry-per-pass", "every pass configuration must yield one database entry", ld.loc())
     # finder.find associates every entry of a platform under the platform's name (C08.R1 checks the Platform ctor)
-    ctx.floor(4 + 7 + 1 + 3 + 1)
+    ctx.floor(8)
 
 
 def _compiler_defs(repo):
@@ -252,16 +320,63 @@ def r4(ctx):
 def r5(ctx):
     repo = ctx.repo
     lc = repo.func("config", "_load_compilers")
-    t = u(lc.node)
-    pats = {
-        "options-extended": "compiler.options.extend(definition['options'])",
-        "parser-appended": "compiler.parser.append(option)",
-        "modes-updated": "compiler.modes[name] = _CompilerMode.from_toml(m)",
-        "passes-updated": "compiler.passes[name] = _CompilerPass.from_toml(p)",
-        "new-compiler-added": "if name not in _compilers:\n    _compilers[name] = _Compiler.from_toml(definition)\n    continue",
-    }
-    for k, pat in pats.items():
-        ctx.soft(_loose(pat) in _loose(t), f"config:_load_compilers:{k}", f"expected `{pat}`: a user definition of a built-in compiler must add to (not replace) its options, parser rules, modes and passes", lc.loc())
+    # Contract of the merge of one user definition (N, D) into a built-in compiler C = _compilers[N], over the
+    # decision table:  'options' in D -> C.options.extend(D['options']);  each D['parser'][i] -> C.parser.append(its copy);
+    # each D['modes'][i] -> C.modes[its name] = _CompilerMode.from_toml(it);  passes likewise;  an unknown N or an alias
+    # definition -> _compilers[N] = _Compiler.from_toml(D).   Nothing of C is replaced wholesale.
+    from ..decision import NOTHING, Evaluator, Hooks, vtext
+    from ..spec import vt
+
+    class H(Hooks):
+        unroll = 1
+
+        def trim(self, concrete):
+            return concrete[:1]  # the built-in files are loaded by one loop over a constant list: one representative
+
+        def on_call(self, call, ftext, args, kwargs, st):
+            if ftext.startswith("log."):
+                return None
+            if ftext == "util._validate_toml":
+                return None
+            return NOTHING
+
+    paths = Evaluator(H(), max_paths=8000).paths(lc.node)
+    n_merge = n_new = 0
+    for p in paths:
+        items = [m.group(1) for k, v in p.atoms.items() for m in [re.match(r"more\((.+\['compiler'\]\.items\(\))#L\d+,0\)$", k)] if m and v and ".cbi/config" in k]
+        if not items:
+            continue
+        IT = f"{items[0]}[0]"
+        N, D = f"{IT}[0]", f"{IT}[1]"
+        at = {vt(k): v for k, v in p.atoms.items()}
+        known = next((v for k, v in at.items() if k.startswith(f"{N} In ")), None)
+        effs = [(e[0], vt(e[1]), [vt(x) for x in e[2:]]) for e in p.effects if e[0] in ("store", "call")]
+        mine = [e for e in effs if N in e[1] or any(D in a for a in e[2])]
+        if known is None:
+            raise AnalysisError(f"_load_compilers: the test whether the user's compiler is already defined is not recognised: {p.describe()[:200]}")
+        repl = [e for e in mine if e[0] == "store" and e[1].endswith(f"[{N}]") and e[2] == [f"_Compiler.from_toml({D})"]]
+        if not known:
+            n_new += 1
+            ctx.check(len(repl) == 1, "config:_load_compilers:new-compiler-added", "a compiler the user defines and CBI does not know must be added as defined", lc.loc())
+            continue
+        alias = at.get(f"'alias_of' In {D}")
+        if alias:
+            ctx.check(len(repl) == 1, "config:_load_compilers:alias-redefinition", "a user definition that makes a built-in compiler an alias replaces it", lc.loc())
+            continue
+        n_merge += 1
+        C = next((e[1][: -len(".options.extend")] for e in mine if e[1].endswith(".options.extend")), None) or next((e[1].split(".modes[")[0] for e in mine if ".modes[" in e[1]), None) or next((e[1][: -len(".parser.append")] for e in mine if e[1].endswith(".parser.append")), None)
+        want = {
+            "options": (at.get(f"'options' In {D}"), lambda: [e for e in mine if e[0] == "call" and e[1].endswith(".options.extend") and e[2] == [f"{D}['options']"]]),
+            "parser": (at.get(f"'parser' In {D}") and any(k.startswith(f"more({D}['parser']") and v for k, v in at.items()), lambda: [e for e in mine if e[0] == "call" and e[1].endswith(".parser.append") and e[2] and e[2][0].startswith(f"{D}['parser'][0]")]),
+            "modes": (at.get(f"'modes' In {D}") and any(k.startswith(f"more({D}['modes']") and v for k, v in at.items()), lambda: [e for e in mine if e[0] == "store" and re.search(r"\.modes\[" + re.escape(D) + r"\['modes'\]\[0\]\['name'\]\]$", e[1]) and e[2] == [f"_CompilerMode.from_toml({D}['modes'][0])"]]),
+            "passes": (at.get(f"'passes' In {D}") and any(k.startswith(f"more({D}['passes']") and v for k, v in at.items()), lambda: [e for e in mine if e[0] == "store" and re.search(r"\.passes\[" + re.escape(D) + r"\['passes'\]\[0\]\['name'\]\]$", e[1]) and e[2] == [f"_CompilerPass.from_toml({D}['passes'][0])"]]),
+        }
+        for what, (present, found) in want.items():
+            got = found()
+            ctx.check(len(got) == (1 if present else 0), f"config:_load_compilers:{what}-{'extended' if what == 'options' else 'appended' if what == 'parser' else 'updated'}:present={int(bool(present))}", f"a user definition of a built-in compiler must add its {what} to the built-in ones (exactly its own, under their own names): expected {1 if present else 0} such update(s), found {len(got)} among {[e[1][-50:] for e in mine][:6]}", lc.loc())
+        ctx.check(not repl, "config:_load_compilers:merged-not-replaced", "a plain re-definition of a built-in compiler must extend it, not replace it", lc.loc())
+    if not (n_merge and n_new):
+        raise AnalysisError(f"_load_compilers: merge idiom not recognised (merge paths {n_merge}, new-compiler paths {n_new})")
     # no plain re-binding of the merged attributes
     for s in walk_no_nested(lc.node):
         if isinstance(s, ast.Assign) and isinstance(s.targets[0], ast.Attribute) and u(s.targets[0].value) == "compiler" and s.targets[0].attr in ("options", "parser", "modes", "passes"):
@@ -346,6 +461,65 @@ ARCH_VECTORS = {
 }
 
 
+# which device passes a command line selects (besides the default pass), per the compilers' documentation
+PASS_VECTORS = {
+    "nvcc": [
+        ([], ["sm_70"]),
+        (["--gpu-architecture=sm_80"], ["sm_80"]),
+        (["--gpu-architecture", "sm_80"], ["sm_80"]),
+        (["-gencode", "arch=compute_80,code=sm_80"], ["sm_80"]),
+        (["-gencode=arch=compute_80,code=sm_80"], ["sm_80"]),
+        (["-gencode", "arch=compute_70,code=sm_70", "-gencode", "arch=compute_80,code=sm_80"], ["sm_70", "sm_80"]),
+        (["--gpu-architecture=compute_75", "--gpu-code=sm_80"], ["sm_75", "sm_80"]),
+    ],
+    "icx": [
+        (["-fsycl", "-fsycl-targets=spir64_gen"], ["sycl-spir64_gen"]),
+        (["-fsycl", "-fsycl-targets=spir64,spir64_x86_64"], ["sycl-spir64", "sycl-spir64_x86_64"]),
+    ],
+}
+
+
+def _selected_passes(parser_opts, argv):
+    """static model of how the option table turns a command line into pass names (the semantics of
+    _StoreSplitAction / _ExtendMatchAction as reviewed: per-option default, keyed by the option's first flag;
+    `override` replaces the default on first use)"""
+    import string
+
+    passes, used = {}, set()
+    opts = [o for o in parser_opts if o.get("dest") == "passes"]
+    for o in opts:
+        if "default" in o:
+            passes[o["flags"][0]] = list(o["default"])
+    i = 0
+    while i < len(argv):
+        a = argv[i]
+        flag, val = (a.split("=", 1) + [None])[:2] if a.startswith("-") and "=" in a else (a, None)
+        o = next((o for o in opts if flag in o.get("flags", [])), None)
+        if o is None:
+            i += 1
+            continue
+        if val is None:
+            i += 1
+            val = argv[i] if i < len(argv) else ""
+        key = o["flags"][0]
+        if o.get("action") == "extend_match":
+            vals = re.findall(o.get("pattern", ""), val)
+        else:
+            vals = val.split(o.get("sep", ","))
+        if o.get("format"):
+            vals = [string.Template(o["format"]).substitute(value=v) for v in vals]
+        if o.get("action") == "extend_match":
+            if o.get("override") and key not in used:
+                passes[key] = list(vals)
+            else:
+                passes.setdefault(key, []).extend(vals)
+            used.add(key)
+        else:
+            passes[key] = list(vals)
+        i += 1
+    return sorted({p for v in passes.values() for p in v})
+
+
 @rule("C12.R10", "compiler data tables: sibling passes agree, the pass a flag value selects exists, arch patterns match every spelling the compiler accepts")
 def r10(ctx):
     import string
@@ -390,6 +564,9 @@ def r10(ctx):
                         if fmt:
                             got = [string.Template(fmt).substitute(value=v) for v in got]
                         ctx.check(got == want, f"compilers/{fname}.toml:{cname}:{flag}:arch:{value}", f"`{cname} {flag}={value}` selects passes {got}; the compiler compiles for {want} (virtual `compute_NN` names select the same device code as `sm_NN`)", loc)
+            for argv, want in PASS_VECTORS.get(cname, []):
+                got = _selected_passes(c.get("parser", []), argv)
+                ctx.check(got == sorted(want), f"compilers/{fname}.toml:{cname}:passes:{' '.join(argv) or '<none>'}", f"`{cname} {' '.join(argv)}` selects the passes {got}; the compiler generates device code for {sorted(want)} (an architecture flag replaces the default architecture, whichever of its spellings is used)", loc)
     ctx.floor(8)
 
 
@@ -463,3 +640,49 @@ def r11(ctx):
     ctx.ok("self-example:correct-order-silent")
     ctx.ok("self-example:swapped-order-reported")
     ctx.floor(2)
+
+
+@rule("C12.R12", "a compiler definition is taken over completely: custom parser actions resolved, modes and passes each indexed by name, independently of one another")
+def r12(ctx):
+    """Table specification of _Compiler.from_toml: for each of `modes` and `passes`, every path decides whether the
+    definition has the key, and when it has, stores {x['name']: <Kind>.from_toml(x) for x in <that list>} under the key;
+    each parser option whose action is the name of a custom action gets the action class."""
+    from ..decision import Evaluator, Hooks, vtext
+    from ..spec import vt
+
+    repo = ctx.repo
+    f = repo.cls("config", "_Compiler").find_method("from_toml")
+    ctx.require(f is not None, "_Compiler.from_toml missing")
+    t0 = f.params[1]
+
+    class H(Hooks):
+        unroll = 1
+
+    paths = Evaluator(H()).paths(f.node)
+    n = 0
+    for p in paths:
+        at = {vt(k): v for k, v in p.atoms.items()}
+        stores = [(vt(e[1]), vt(e[2])) for e in p.effects if e[0] == "store"]
+        for keyname, kind in (("modes", "_CompilerMode"), ("passes", "_CompilerPass")):
+            present = next((v for k, v in at.items() if re.fullmatch(r"'" + keyname + r"' In " + re.escape(t0) + r"(\.copy\(\))?", k)), None)
+            key = f"config:_Compiler.from_toml:{keyname}:present={'-' if present is None else int(present)}"
+            n += 1
+            if present is None:
+                ctx.violation(key, f"a path builds the compiler without looking whether the definition has `{keyname}`: {[k for k in at if ' In ' in k]} - a definition with `{keyname}` (e.g. passes but no modes) keeps them as a raw list, and every selected pass/mode is then reported as unknown", f.loc())
+                continue
+            conv = [v for tgt, v in stores if tgt.endswith(f"['{keyname}']")]
+            if present:
+                ok = len(conv) == 1 and f"{kind}.from_toml(" in conv[0] and "['name']" in conv[0] and f"['{keyname}']" in conv[0]
+                ctx.check(ok, key, f"`{keyname}` must be indexed by name as {{x['name']: {kind}.from_toml(x) ...}}: stores {conv}", f.loc())
+            else:
+                ctx.check(not conv, key, f"`{keyname}` is converted although absent: {conv}", f.loc())
+        res = vt(p.result[1]) if p.result[0] == "return" else ""
+        ctx.check(res.startswith("_Compiler(") or res.startswith("cls("), "config:_Compiler.from_toml:returns-compiler", f"returns {res[:60]}", f.loc())
+    # custom actions: both names are mapped to their classes
+    acts = {"store_split": "_StoreSplitAction", "extend_match": "_ExtendMatchAction"}
+    for name, cls_ in acts.items():
+        hit = any(at_k for p in paths for at_k, v in p.atoms.items() if v and f"'{name}' Eq " in at_k and any(e[0] == "store" and vt(e[2]) == cls_ and vt(e[1]).endswith("['action']") for e in p.effects))
+        ctx.check(hit, f"config:_Compiler.from_toml:action:{name}", f"a parser option whose action is '{name}' must get the class {cls_}", f.loc())
+    if n < 4:
+        raise AnalysisError("_Compiler.from_toml: table too small")
+    ctx.floor(6)
